@@ -259,12 +259,7 @@ theorem stage_coloured (alts : List Nat) (orders : List (List Nat)) (v1 vn : Lis
     (hg : colourPairs v1 vn (orderedPairs alts) (initColouring alts v1 vn (v1.headD 0) (vn.headD 0)) = some g) :
     (stage alts orders).coloured = some g := by
   unfold stage
-  revert hsc hh hl
-  generalize scOrders alts orders = s
-  rcases SingleCrossing.isSC orders alts.length with ⟨isSc, w⟩
-  intro hsc hh hl
-  simp only at hsc
-  subst hsc
-  simp only [Bool.not_true, Bool.false_eq_true, if_false, hh, hl, hg]
+  rw [hsc]
+  exact C19.stageOn_coloured alts _ v1 vn g hh hl hg
 
 end PrefVerif.C19x
